@@ -65,6 +65,11 @@ def tokens(s):
     return out
 
 
+def comment_safe(s, limit=300):
+    """text that can stand inside a Coq comment (comments nest and strings are lexed inside them)"""
+    return s[:limit].replace("(*", "( *").replace("*)", "* )").replace('"', "'")
+
+
 def show(toks):
     return " ".join(str(v) for _, v in toks)
 
